@@ -76,8 +76,14 @@ var serial int64 = 1000
 
 func makeCert(cn string, key crypto.Signer, parent *x509.Certificate, parentKey crypto.Signer, isCA bool) (*x509.Certificate, []byte) {
 	serial++
+	return makeCertSerial(cn, serial, key, parent, parentKey, isCA)
+}
+
+// makeCertSerial is makeCert with a chosen serial number: issuer and serial
+// are the certificate maker's choice and say nothing about the key.
+func makeCertSerial(cn string, sn int64, key crypto.Signer, parent *x509.Certificate, parentKey crypto.Signer, isCA bool) (*x509.Certificate, []byte) {
 	tmpl := &x509.Certificate{
-		SerialNumber: big.NewInt(serial), Subject: pkix.Name{CommonName: cn},
+		SerialNumber: big.NewInt(sn), Subject: pkix.Name{CommonName: cn},
 		NotBefore: time.Now().Add(-time.Hour), NotAfter: time.Now().Add(24 * time.Hour),
 		KeyUsage: x509.KeyUsageDigitalSignature | x509.KeyUsageCertSign, ExtKeyUsage: []x509.ExtKeyUsage{x509.ExtKeyUsageServerAuth},
 		BasicConstraintsValid: true, IsCA: isCA, IPAddresses: []net.IP{net.ParseIP("127.0.0.1")}, DNSNames: []string{"localhost"},
@@ -152,6 +158,13 @@ func setupPKI() error {
 	x1, dx1 := makeCert("extra1", genKey("p384"), nil, nil, false)
 	x2, dx2 := makeCert("extra2", genKey("p256"), nil, nil, false)
 	servers = append(servers, startServer("selfsigned-chain3", [][]byte{d4, dx1, dx2}, k4, []*x509.Certificate{c4, x1, x2}, false))
+	// 5-6: look-alikes: same subject, issuer and serial number, different keys
+	// (a fixed-template generator, or an impostor copying the visible fields)
+	for i := 0; i < 2; i++ {
+		k := genKey("p256")
+		c, d := makeCertSerial("curlrevshell", 1, k, nil, nil, false)
+		servers = append(servers, startServer(fmt.Sprintf("lookalike-%d", i), [][]byte{d}, k, []*x509.Certificate{c}, false))
+	}
 	return nil
 }
 
@@ -468,6 +481,15 @@ func c13Classes(c C13Case) (cl []string, nontrivial bool) {
 	}
 	if len(cfgs) >= 2 {
 		nontrivial = true
+	}
+	la := map[int]bool{}
+	for _, call := range c.Calls {
+		if n := servers[call.Server%len(servers)].name; strings.HasPrefix(n, "lookalike-") {
+			la[call.Server%len(servers)] = true
+		}
+	}
+	if len(la) >= 2 {
+		add("lookalike-certificates-both-contacted")
 	}
 	return cl, nontrivial
 }
